@@ -57,7 +57,7 @@ public:
 	// are no longer the context's shared small-integer objects)
 	void warm_up(KSI_CTX *ctx, int n);
 private:
-	size_t progress_ = 0;
+	size_t progress_ = 0, reply_len_ = 0;
 	bool replied_ = false;
 	std::string make_reply(ServedRequest &sr);
 	bool on_block_tcp(sim::Conn &c, sim::BlockWhat w);
